@@ -351,6 +351,9 @@ def run_case(seed, i, tier):
     cr.arrival_hashes.append(tr.arrival_hash())
     cr.nontrivial_keys.append(core.derive(0, scn.digest()))
     vs = mergecheck.evaluate(res, None, check_protocol=False)
+    if not vs and res.rc != 0:
+        # a well-formed file, whatever the window selects of it (nothing, too), is not an error
+        vs.append(("exit_status_nonzero_for_a_valid_file", "exit status %s; stderr tail %r" % (res.rc, res.stderr[-200:])))
     if not vs:
         d = check_output(res.stdout, want, uo is not None, name)
         if d:
